@@ -322,6 +322,11 @@ def run(ctx):
         ex_callers(ctx, mags, bins)
         ctx.count(int(mags.size))
         ctx.nt_bulk(core_digest(("callers", j, ctx.seed)), int(numpy.unique(mags).size))
+    # 7. the repository's own tests as a workload under the contracts (thorough, one shard)
+    if thorough and ctx.shard == 0:
+        from ..suite import run_repo_suite
+        run_repo_suite(ctx, ["test_calc.py", "test_spatial.py", "test_catalog.py", "test_regions.py", "test_forecast.py", "test_evaluations.py",
+                             "test_magnitude_tests.py", "test_adaptiveHistogram.py"])
 
 MANIFEST = {
     "technique": "runtime contract (post-condition) on the real bin1d_vec/cleaner_range at every call site + exact-comparison reference bin over generated edge-adjacent probes",
